@@ -259,10 +259,22 @@ def check_lang(A, ref, wmax, nmax, bad, tag):
     ls = labels_of(ref) + ["z"]
     vs = sorted(ref.V, key=U.key)
     n0 = len(bad)
-    for sv in [None] + vs[:3]:
+    for sv in [None] + vs[:3] + ["nowhere"]:          # "nowhere" is not a state: only the empty word is accepted from it
         if sv is None and (not starts or starts[0] not in ref.V):
             continue
         s0 = starts[0] if sv is None else sv
+        if sv == "nowhere":
+            for w in itertools.islice(words_upto(ls, 2), 0, 8):
+                pw = pyword(w)
+                if A.accepts(pw, start_vertex=sv) != (len(w) == 0):
+                    bad.append([tag, "accepts", sv, pw])
+                try:
+                    got = A.follow_word(pw, start_vertex=sv)
+                except FSAException:
+                    got = None
+                if (got == sv) != (len(w) == 0) or (got is not None and len(w) > 0):
+                    bad.append([tag, "follow_word", sv, pw, repr(got)])
+            continue
         for w in words_upto(ls, wmax):
             end = ref.follow(s0, w)
             pw = pyword(w)
@@ -424,7 +436,7 @@ def run_multiple_oracle(inp):
                 if len(w) % k:
                     continue
                 blocks = ["".join(w[j:j + k]) for j in range(0, len(w), k)]
-                if B.accepts(blocks) != (ref.follow(starts[0], w) is not None):
+                if B.accepts(blocks) != any(ref.follow(x, w) is not None for x in starts):     # any start state is allowed
                     bad.append(["multiple-accepts", k, blocks, B.accepts(blocks)])
                     break
         if list(B.start_vertices) != starts:
@@ -468,7 +480,7 @@ def run_rename_oracle(inp):
                 if got != want_w:
                     bad.append(["rename-language", m, n])
             for w in words_upto(ls, 3):
-                if B.accepts("".join(m[l] for l in w)) != (ref.follow(starts[0], w) is not None):
+                if B.accepts("".join(m[l] for l in w)) != any(x in ref.V and ref.follow(x, w) is not None for x in starts):
                     bad.append(["rename-accepts", m, w])
         C = copy.deepcopy(A)
         C.rename_generators(m, inplace=True)
